@@ -273,6 +273,10 @@ class H5Group:
         else:
             if isinstance(value, np.str_):
                 value = str(value)
+            if isinstance(value, str):
+                # h5py removes the previous value before it finds out that
+                # the new text cannot be stored
+                util.check_text_storable(value)
             self.group.attrs[name] = value
 
     def get_attr(self, name):
